@@ -3,7 +3,8 @@
 Lean side : TTModel/C20_GMRF.lean (+ C08 model) and TTProofs/Props/C20.lean: gmrf_weighted_form /
             gmrf_quadratic_form (any commutative ring, any length: sum of weighted squared first differences
             = x^T Q x for the tridiagonal matrix precision_matrix publishes), gmrf_density_is_gaussian_form,
-            gamma_integrated (the closed form is the integral over tau of Gamma(tau;a,b) * GMRF(x|tau)),
+            gamma_integrated / invgamma_integrated (the closed forms are the integrals of Gamma(tau;a,b) * GMRF(x|tau)
+            over tau and of InvGamma(theta) * ConstantCoalescent(T|theta) over theta),
             suffstats_reproduce_skygrid / _skyride (sum_g ss_g/theta_g + c_g log theta_g = -log_prob).
 Tie       : correspondence with torchtree: quadratic forms and published matrices bit-exact on dyadic
             fields (plain, weighted), 1e-12 time-aware; log densities 1e-12; integrated forms 1e-10;
@@ -540,7 +541,6 @@ def run(ck: Check):
         "theorems over commutative rings / the reals; float64 tied by the correspondence (exact on dyadic inputs; 1e-12 / 1e-10 through log, division by non-dyadic weights, lgamma)",
         "math.lgamma values are inputs of the integrated models (gamma_integrated assumes they are log Gamma)",
         "the literal 1.8378770664093453 in GMRF._call is taken to be log(2 pi)",
-        "size-integrated constant coalescent (inverse-gamma): closed form checked against quadrature on the implementation only (no Lean theorem)",
     ]
     ck.trusted += ["math.lgamma", "mpmath.quad (tanh-sinh) for the numerical integration oracle", "torch.tensor_split / torch.where semantics (modelled as splitAtMarks)"]
     ok, broken = ck.lean_side({}, ["TTProofs.Props.C20", "drv_c20"], "TTProofs/Props/C20.lean")
